@@ -19,6 +19,7 @@ func init() {
 			"FE-CLASS avg: an infinite running average is kept for finite/same-sign values; AF point time: float64(UnixMilli())/1000, conversion before division",
 			"PV-NUM sum: Apply is state += v, Result the state",
 			"ERR-LOOP ReadStepResponse checks Err() after draining, on the instant path too; PV-NUM no raw sum of squares",
+			"LP-PIPE entryIterator.Next: a record that was read reaches the prefilter before the next is read; the record body is a copy of the frame buffer",
 		},
 		NotDecided: []string{"numeric results of the aggregators (Welford, quantile interpolation)", "that the storage delivers samples in time order", "equality instant = range at T beyond the shared code path"},
 		Rules: func(r *Run) {
@@ -41,6 +42,8 @@ func init() {
 			ruleSumAggregatorPlain(r)
 			ruleErrLoop(r, []string{enginePkg, metricPkg, itersPkg}) // an instant and a range query over the same broken stream both fail
 			ruleNoSumOfSquares(r)
+			ruleLPPipe(r) // every record the storage returns for the window reaches the sampler unless a filter rejects it
+			ruleDaemonLog(r)
 		},
 	})
 }
